@@ -45,6 +45,7 @@ def run_models(run, graph, specs, plan, opts):
                           freeze=sp.get("freeze", True), coverage=sp.get("coverage", False),
                           allow_freeze=sp.get("allow_freeze", False), spec=sp.get("spec", "Spec"),
                           load=(M.load_keys(sp["pres"]) if sp.get("allow_load") else None),
+                          functions=(M.FUNCTION_TOKENS if sp.get("allow_functions") else None),
                           properties=sp.get("properties", M.PROPERTIES), **kw)
         run.add_tlc(res, sp["label"])
         sp["result"] = {"generated": res.generated, "distinct": res.distinct, "violated": res.violated}
